@@ -12,6 +12,7 @@ V_FLOAT = [-2.0, -0.5, 0.0, 1.0, 3.0]      # mode 'V': signs, zero, a non power 
 V_INT = [-2, -1, 0, 1, 3]
 V_UINT = [2, 5, 0, 1, 3]
 D_FLOAT = [-2.0, -0.5, 1.0, 2.0, 4.0]      # mode 'D': non-zero, |v| a power of two (divisors)
+Z_FLOAT = [-2.0, -0.0, 0.0, 1.0, 4.0]      # mode 'Z': divisors WITH exact zeros of both signs
 
 
 def kind(dtype):
@@ -46,32 +47,77 @@ def triple_index(size, phase=0, nreg=3):
     return [i0, i1, i2, i3][:nreg]
 
 
-def contents(dtype, size, phase=0, mode='V', nreg=3):
-    """Register contents (flat arrays of the space dtype) for one phase."""
+def values_from_index(ix, dtype, mode='V'):
+    """Entries of the space dtype for an array of alphabet indices 0..4."""
     dtype = np.dtype(dtype)
     k = kind(dtype)
+    if k in 'iu' and mode != 'V':
+        raise ValueError('integer spaces have no divisor mode')
     if k == 'i':
         tab = V_INT
     elif k == 'u':
         tab = V_UINT
     else:
-        tab = V_FLOAT if mode == 'V' else D_FLOAT
-    if k in 'iu' and mode != 'V':
-        raise ValueError('integer spaces have no divisor mode')
+        tab = {'V': V_FLOAT, 'D': D_FLOAT, 'Z': Z_FLOAT}[mode]
     tab = np.asarray(tab)
-    out = []
-    for ix in triple_index(size, phase, nreg):
-        re = tab[ix]
-        if k == 'c':
-            if mode == 'V':
-                val = re + 1j * tab[(2 * ix + 3) % 5]
-            else:
-                # purely real or purely imaginary, |v|^2 a power of two: division stays exact
-                val = re * np.where(ix % 2 == 1, 1j, 1.0)
+    ix = np.asarray(ix)
+    re = tab[ix]
+    if k == 'c':
+        if mode == 'V':
+            val = re + 1j * tab[(2 * ix + 3) % 5]
         else:
-            val = re
-        out.append(np.asarray(val).astype(dtype))
-    return out
+            # purely real or purely imaginary, |v|^2 a power of two (or zero): a finite
+            # quotient stays exact
+            val = np.where(ix % 2 == 1, 1j * re, re + 0j)
+    else:
+        val = re
+    return np.asarray(val).astype(dtype)
+
+
+def contents(dtype, size, phase=0, mode='V', nreg=3):
+    """Register contents (flat arrays of the space dtype) for one phase."""
+    return [values_from_index(ix, dtype, mode) for ix in triple_index(size, phase, nreg)]
+
+
+def debruijn_pairs():
+    """Cyclic sequence of 25 indices 0..4 in which every ordered pair (s[m], s[m+1]) of
+    indices occurs exactly once (de Bruijn sequence B(5, 2), standard Lyndon-word recursion)."""
+    k, n = 5, 2
+    a = [0] * (k * n)
+    seq = []
+
+    def db(t, p):
+        if t > n:
+            if n % p == 0:
+                seq.extend(a[1:p + 1])
+        else:
+            a[t] = a[t - p]
+            db(t + 1, p)
+            for j in range(a[t - p] + 1, k):
+                a[t] = j
+                db(t + 1, t)
+    db(1, 1)
+    return seq
+
+
+def overlap_buffer(shape, axis, dtype, phase=0, mode='V', leaf=0):
+    """Contents of ONE buffer whose views shifted by one entry along ``axis`` (0 or -1) serve
+    as two distinct read-only operands: entry (r along axis, q = C-order index over the other
+    axes) holds symbol s[(r + 6 q + 7 leaf + phase * n_r) % 25] of the de Bruijn sequence, so the
+    pairs (buf[r + 1], buf[r]) met by the two views run through all 25 ordered value pairs as
+    soon as r + 6 q takes 25 consecutive residues."""
+    shape = tuple(int(x) for x in shape)
+    seq = np.asarray(debruijn_pairs())
+    ax = axis % len(shape)
+    nr = shape[ax]
+    rest = [s for d, s in enumerate(shape) if d != ax]
+    nq = int(np.prod(rest)) if rest else 1
+    r = np.arange(nr).reshape(-1, 1)
+    q = np.arange(nq).reshape(1, -1)
+    m = (r + 6 * q + 7 * int(leaf) + int(phase) * (nr - 1)) % 25
+    vals = values_from_index(seq[m], dtype, mode)           # shape (nr, nq)
+    vals = vals.reshape([nr] + rest)
+    return np.moveaxis(vals, 0, ax)
 
 
 def poison_fill(dtype, size):
@@ -116,6 +162,42 @@ def sub(X, Y, dtype):
 
 def mul(X, Y, dtype):
     return (_w(X, dtype) * _w(Y, dtype)).astype(dtype)
+
+
+def div_ieee(X, Y, dtype):
+    """IEEE entry-wise quotient in the space dtype, zero divisors included (+-inf, nan)."""
+    if kind(dtype) in 'iu':
+        raise ValueError('division is not closed over the integers')
+    with np.errstate(all='ignore'):
+        return np.true_divide(np.asarray(X).astype(dtype), np.asarray(Y).astype(dtype))
+
+
+def same_ieee(got, exp):
+    """Equality that treats nan == nan and distinguishes +inf / -inf (per complex component)."""
+    got = np.asarray(got)
+    exp = np.asarray(exp)
+    if got.shape != exp.shape:
+        return False
+    if got.dtype.kind == 'c' or exp.dtype.kind == 'c':
+        return bool(np.array_equal(got.real, exp.real, equal_nan=True) and
+                    np.array_equal(got.imag, exp.imag, equal_nan=True))
+    return bool(np.array_equal(got, exp, equal_nan=True))
+
+
+def first_diff_ieee(got, exp):
+    got = np.asarray(got)
+    exp = np.asarray(exp)
+    if got.shape != exp.shape:
+        return 0
+
+    def ne(a, b):
+        return ~((a == b) | (np.isnan(a) & np.isnan(b)))
+    if got.dtype.kind == 'c' or exp.dtype.kind == 'c':
+        bad = ne(got.real, exp.real) | ne(got.imag, exp.imag)
+    else:
+        bad = ne(got, exp)
+    nz = np.flatnonzero(bad)
+    return int(nz[0]) if nz.size else None
 
 
 def div(X, Y, dtype):
